@@ -47,7 +47,20 @@ def cases(tier, seed):
         d = gen.random_mesh(rng, mf)
         yield {"kind": "mesh", "mesh": d, "order": int(rng.integers(0, len(ORDERS))),
                "supplied": bool(rng.random() < 0.3), "sseed": int(rng.integers(0, 10**6)),
-               "source": "mpas" if i % 5 == 4 else "topology", "layout": ux.LAYOUTS[int(rng.integers(0, 4))] if rng.random() < 0.4 else "C"}
+               "source": "mpas" if i % 5 == 4 else "topology", "layout": ux.LAYOUTS[int(rng.integers(0, 4))] if rng.random() < 0.4 else "C",
+               "orphans": int(rng.choice([0, 0, 0, 1, 3])), "touch": [TOUCH[int(j)] for j in rng.choice(len(TOUCH), size=int(rng.integers(0, 4)), replace=False)]}
+
+
+# other derived quantities a script may ask for before (or between) the incidence tables
+TOUCH = ["edge_face_distances", "edge_node_distances", "face_areas", "face_lon", "edge_lon", "bounds", "get_dual", "face_edge_connectivity", "n_nodes_per_face", "boundary_edge_indices",
+         "node_x", "face_x"]
+
+
+def touch(g, name):
+    if name == "get_dual":
+        return g.get_dual()
+    v = getattr(g, name)
+    return np.asarray(v.values) if hasattr(v, "values") else v
 
 
 def check_grid(ctx, grid, faces, n_node, order, sig):
@@ -156,6 +169,9 @@ def run_case(ctx, case):
                 ctx.observe("tiny_with_isolated_face")
         return
     m = gen.build(case["mesh"])
+    if case.get("orphans") and case.get("source", "topology") != "mpas":
+        m = gen.with_orphans(m, case["sseed"], case["orphans"])  # nodes no face uses, anywhere in the numbering
+        ctx.observe("meshes_with_unused_nodes")
     ft = features(m.faces, m.n_node)
     extra = None
     if case["supplied"]:
@@ -188,7 +204,24 @@ def run_case(ctx, case):
     else:
         g = ux.grid_from_mesh(m, extra=extra, layout=case.get("layout", "C"))
         sig = {"supplied": bool(extra), "isolated": ft["isolated"], "layout": case.get("layout", "C")}
+    touched = []
+    for name in case.get("touch", []):
+        try:
+            touch(g, name)
+            touched.append(name)
+        except Exception as e:
+            ctx.observe("touch_raised:%s:%s" % (name, core.exc_sig(e)))
+    if touched:
+        sig = dict(sig, after_other_quantities=True)
+        ctx.note_set("touched_before_tables", "+".join(touched))
     check_grid(ctx, g, m.faces, m.n_node, case["order"], sig)
+    # ... and the tables still say the same after every other derived quantity has been asked for
+    for name in TOUCH:
+        try:
+            touch(g, name)
+        except Exception:
+            pass
+    check_grid(ctx, g, m.faces, m.n_node, case["order"], dict(sig, reread="after_all_other_quantities"))
     # grids DERIVED from this one once all its incidence tables exist (face and node selections): judged against the faces
     # the derived grid itself reports
     if m.n_face >= 4:
